@@ -218,7 +218,8 @@ def corpus():
             cases.append(_case(ks, v, 0, "huge-int"))
         for ks in STACKS2:
             cases.append(_case(ks, v, 2, "huge-int", ip=False))
-    return cases
+    # the same libraries holding instances of a user-defined subclass of Entry
+    return cases + [dict(c, sub=True) for c in cases]
 
 
 ALPHABET = list("janfebmrpyulgsoctvdJANFEBMRPYULGSOCTVD0123456789") + [
@@ -305,7 +306,7 @@ def request(case):
 
 
 def _run(case):
-    lib = W.library(case["lib"])
+    lib = W.library(case["lib"], sub=case.get("sub", False))
     for k in case["ks"]:
         lib = _cls(k)(allow_inplace_modification=case.get("ip", True)).transform(lib)
     return lib
@@ -368,7 +369,7 @@ def _month_field(entry):
 def oracle(case):
     from bibtexparser import model as M
     ks = case["ks"]
-    before = W.library(case["lib"])
+    before = W.library(case["lib"], sub=case.get("sub", False))
     try:
         after = _run(case)
     except Exception as e:  # noqa
@@ -376,7 +377,7 @@ def oracle(case):
     alone = None
     if len(ks) > 1:
         try:
-            alone = _run({"ks": ks[-1:], "lib": case["lib"], "ip": case.get("ip", True)})
+            alone = _run({"ks": ks[-1:], "lib": case["lib"], "ip": case.get("ip", True), "sub": case.get("sub", False)})
         except Exception as e:  # noqa
             return "the middleware %s alone raised %s" % (ks[-1], type(e).__name__)
     if len(before.blocks) != len(after.blocks):
